@@ -56,6 +56,49 @@ func init() {
 		}
 		return t.Format(layout)
 	}, "(time.Time).Format")
+	// AddDate on a symbolic instant or with symbolic amounts: whole days of 86400 s, months of 30 and years of 365 days
+	// (calendar effects are outside every claim that uses it); concrete calls use the real calendar.
+	reg(func(p *Path, fr *frame, fn *ssa.Function, a []Value) Value {
+		t, okT := concreteTime(a[0])
+		y, okY := constInt(a[1])
+		m, okM := constInt(a[2])
+		d, okD := constInt(a[3])
+		if okT && okY && okM && okD {
+			return timeValue(t.AddDate(int(y), int(m), int(d)))
+		}
+		s := a[0].(Struct)
+		wall := termOf(s[0])
+		if !wall.IsConst() || wall.C&hasMonotonic != 0 {
+			panic(unmodelled{"AddDate on a time with monotonic reading"})
+		}
+		days := sym.Add(sym.Add(sym.Mul(termOf(a[1]), mkInt(365)), sym.Mul(termOf(a[2]), mkInt(30))), termOf(a[3]))
+		p.note("time.AddDate on symbolic values modelled with 365-day years and 30-day months")
+		return Struct{s[0], sym.Add(termOf(s[1]), sym.Mul(days, mkInt(86400))), s[2]}
+	}, "(time.Time).AddDate")
+	calendar := func(p *Path, fr *frame, fn *ssa.Function, a []Value) Value {
+		if t, ok := concreteTime(a[0]); ok {
+			switch fn.Name() {
+			case "Year":
+				return mkInt(int64(t.Year()))
+			case "Month":
+				return mkInt(int64(t.Month()))
+			case "Day":
+				return mkInt(int64(t.Day()))
+			case "YearDay":
+				return mkInt(int64(t.YearDay()))
+			case "Weekday":
+				return mkInt(int64(t.Weekday()))
+			case "Date":
+				y, m, d := t.Date()
+				return Tuple{mkInt(int64(y)), mkInt(int64(m)), mkInt(int64(d))}
+			case "Clock":
+				h, m, s := t.Clock()
+				return Tuple{mkInt(int64(h)), mkInt(int64(m)), mkInt(int64(s))}
+			}
+		}
+		panic(unmodelled{"calendar field (" + fn.Name() + ") of a symbolic instant at " + fr.where()})
+	}
+	reg(calendar, "(time.Time).Year", "(time.Time).Month", "(time.Time).Day", "(time.Time).YearDay", "(time.Time).Weekday", "(time.Time).Date", "(time.Time).Clock")
 	reg(func(p *Path, fr *frame, fn *ssa.Function, a []Value) Value { return mkInt(1) }, "time.runtimeNano", "time.runtimeNow")
 	reg(nop, "time.Sleep")
 	// time.now(): the clock model – arbitrary non-decreasing instants (seconds symbolic, whole seconds)
